@@ -238,12 +238,12 @@ class Search(abc.ABC):
         if np.isscalar(timeout) and timeout > 0:
             self._evaluator.timeout = None
 
+        # Force dumping if all configurations were failed
+        self.dump_jobs_done_to_csv(flush=True)
+
         if not (os.path.exists(self._path_results)):
             logging.warning(f"Could not find results file at {self._path_results}!")
             return None
-
-        # Force dumping if all configurations were failed
-        self.dump_jobs_done_to_csv(flush=True)
 
         self.extend_results_with_pareto_efficient_indicator()
 
@@ -279,7 +279,10 @@ class Search(abc.ABC):
                 mask_pareto_front = non_dominated_set(objectives)
                 df["pareto_efficient"] = False
                 df.loc[mask_no_failures, "pareto_efficient"] = mask_pareto_front
-                df.to_csv(df_path, index=False)
+                # Written next to the results and moved over them: a process killed meanwhile
+                # leaves the previous file
+                df.to_csv(f"{df_path}.tmp", index=False)
+                os.replace(f"{df_path}.tmp", df_path)
 
     def _search(self, max_evals, timeout, max_evals_strict=False):
         """Search algorithm logic.
